@@ -18,6 +18,9 @@ func vhBuildC12(g *vhDigits, depth int, aliased bool, budget *int, label string)
 		s = List()
 	}
 	w := 1 + g.next(3)
+	if label != "" && g.next(4) == 0 {
+		w = 0 // an initialised but empty nested instance
+	}
 	wrap := func() int {
 		if !aliased || *budget <= 0 {
 			return 0
@@ -27,12 +30,15 @@ func vhBuildC12(g *vhDigits, depth int, aliased bool, budget *int, label string)
 	}
 	for i := 0; i < w; i++ {
 		name := label + string(rune('a'+i))
-		kinds := 6
+		kinds := 7
 		if depth <= 1 {
 			kinds = 3
 		}
 		var el any
 		switch g.next(kinds) {
+		case 6: // a Condition whose expression is a Condition that holds a Stack
+			inner := vhWrapStack(vhBuildC12(g, depth-1, aliased, budget, name), wrap())
+			el = vhWrapCond(Cond("o"+name, Ne, vhWrapCond(Cond("i"+name, Eq, inner), wrap())), wrap())
 		case 0:
 			el = name
 		case 1:
